@@ -200,6 +200,23 @@ Theorem SrcTie_get_ordered_data_model : forall t,
 Proof. exact get_ordered_data_model. Qed.
 Print Assumptions SrcTie_get_ordered_data_model.
 
+(* mloda/core/prepare/execution_plan.py  ExecutionPlan._validate_required_uuids_are_produced.  It ends with the call of
+   _validate_steps_do_not_wait_in_a_cycle (a `while` loop: outside the subset), a PARAMETER here.  For EVERY callee:
+   ValueError and the plan untouched unless PlannerA.validate_A holds, otherwise the call.  step.get_uuids() is dispatched on
+   the step class: the data model reads it as Orch.uuids. *)
+Theorem SrcTie_validate_required_uuids_are_produced : forall (cyc : Orch.plan -> res unit * Orch.plan) p,
+  ExecutionPlan_validate_required_uuids_are_produced cyc p = if PlannerA.validate_A p then cyc p else (Raise ValueError, p).
+Proof. exact validate_required_uuids_are_produced_src. Qed.
+Print Assumptions SrcTie_validate_required_uuids_are_produced.
+
+(* with the callee as PlannerA models it (cycle_model: runsim_accepts) the plan is accepted iff the last two tests of
+   prepare_A / prepare_L pass *)
+Theorem SrcTie_validate_required_uuids_are_produced_model : forall p,
+  fst (ExecutionPlan_validate_required_uuids_are_produced cycle_model p) = Ok tt
+  <-> (PlannerA.validate_A p && PlannerA.runsim_accepts p = true)%bool.
+Proof. exact validate_required_uuids_are_produced_model. Qed.
+Print Assumptions SrcTie_validate_required_uuids_are_produced_model.
+
 (* ---------------- C15, options (round 2): coq/Gen/SrcOpt.v; data model of the objects: Model/PyObjOpt.v ---------------- *)
 (* components/options.py  Options.get never raises (self.group[key] is read under `if key in self.group`) and is o_get *)
 Theorem SrcTie_options_get : forall s k, Options_get s k = Ok (Options.o_get k s).
